@@ -1,5 +1,6 @@
 #!/bin/sh
 # usage: tools/keepseed.sh <tag>   -- confirm an agent's change in its worktree /tmp/wt/<tag> and store it as seeded/<tag>
+# (never uses git stash: the stash is shared by all worktrees of a repository)
 set -u
 T=$1; WT=/tmp/wt/$T; D=/verif/seeded/$T
 [ -d "$WT" ] || { echo no worktree; exit 2; }
@@ -7,9 +8,10 @@ mkdir -p "$D"
 git -C "$WT" diff -- vopy > "$D/patch.diff"
 [ -s "$D/patch.diff" ] || { echo "empty diff"; exit 2; }
 cp "$WT/demo_seed.py" "$D/demo_seed.py"
-cd "$WT" && PYTHONPATH="$WT" timeout 600 /venv/bin/python -W ignore demo_seed.py > "$D/demo_with_change.log" 2>&1; rc_with=$?
-git -C "$WT" stash -q
-cd "$WT" && PYTHONPATH="$WT" timeout 600 /venv/bin/python -W ignore demo_seed.py > "$D/demo_without_change.log" 2>&1; rc_without=$?
-git -C "$WT" stash pop -q
-echo "$T demo: with change exit=$rc_with ; without change exit=$rc_without"
+export OMP_NUM_THREADS=1 MKL_NUM_THREADS=1
+cd "$WT" && PYTHONPATH="$WT" timeout 900 /venv/bin/python -W ignore demo_seed.py > "$D/demo_with_change.log" 2>&1; rc_with=$?
+git -C "$WT" apply -R "$D/patch.diff" || { echo "cannot reverse"; exit 2; }
+cd "$WT" && PYTHONPATH="$WT" timeout 900 /venv/bin/python -W ignore demo_seed.py > "$D/demo_without_change.log" 2>&1; rc_without=$?
+git -C "$WT" apply "$D/patch.diff"
+echo "$T demo: with change exit=$rc_with ; without change exit=$rc_without ; files: $(git -C "$WT" diff --stat -- vopy | tail -1)"
 echo "{\"rc_with\": $rc_with, \"rc_without\": $rc_without}" > "$D/confirm.json"
